@@ -109,9 +109,19 @@ func VH_C15_Cache() {
 	model := map[string]*vhC15Entry{"a": {}, "b": {}}
 	tag := ""
 	for step := 0; step < h; step++ {
-		op := symChoice(10)
+		op := symChoice(11)
 		n := names[symChoice(symParam("NAMES", 1))] // names touched by history operations
 		switch op {
+		case 10: // registration of exactly the text that is being served for the name right now
+			if !model[n].present {
+				symAssume(false)
+			}
+			tag += "S"
+			if e.RegisterString(n, model[n].out) != nil {
+				symAssert(false, "registers")
+				return
+			}
+			*model[n] = vhC15Entry{present: true, out: model[n].out, from: -1}
 		case 9: // development mode: auto-reload on and cache off, or the reverse
 			dm := symBool()
 			e.SetDevelopmentMode(dm)
